@@ -517,7 +517,13 @@ func c06BuiltOne(c *vlib.Ctx, seed uint64) {
 	for i, l := range ls {
 		det[fmt.Sprintf("layer_%d", i)] = trunc300(gopacket.LayerString(l.(gopacket.Layer)))
 	}
+	// every other stack is written into a buffer that held an earlier packet (bytes and recorded layers) and was cleared
+	// by the stacking helper itself: the round trip must not depend on it
 	buf := gopacket.NewSerializeBuffer()
+	if seed%2 == 1 {
+		buf = dirtyBuffer()
+		det["buffer"] = "reused"
+	}
 	var err error
 	if pi := vlib.Guard(func() { err = gopacket.SerializeLayers(buf, optsFix, all...) }); pi != nil {
 		c.Violation("built:panic@"+pi.Func, fmt.Sprintf("writing a stack built from in-range values (%s) panicked: %s", key, pi.Value), det)
